@@ -5,6 +5,7 @@ CONSTANTS
   LateT = 256
   NackHorizon = 45
   Fixed_F20 = TRUE
+  Fixed_F26 = TRUE
   TraceFile = "trace_cache.ndjson"
 INIT Init
 NEXT Next
